@@ -113,26 +113,42 @@ def setAtt (atts : List Att) (a : Att) : List Att :=
     atts.map (fun b => if b.nonce = a.nonce ∧ b.key = a.key then a else b)
   else atts ++ [a]
 
+/-- `GetAttestation(ctx, claim.GetEventNonce(), claim.ClaimHash())`, or the fresh attestation `Attest` creates -/
+def findAtt (tbl : Fields) (s : VState) (n h : Nat) (ev : Ev) : Att :=
+  match s.atts.find? (fun a => a.nonce = n ∧ a.key = claimKey tbl h ev) with
+  | some a => a
+  | none => ⟨n, claimKey tbl h ev, [], false⟩
+
+def addVote (a : Att) (o : Nat) : Att := { a with votes := a.votes ++ [o] }
+
+/-- `!att.Observed && claim.GetEventNonce() == GetLastObservedEventNonce()+1`, then the tally loop of `TryAttestation` -/
+def crosses (s : VState) (att : Att) (n : Nat) : Bool :=
+  !att.observed && n == s.base.eventNonce + 1 && reached (power s) (required s.total) att.votes 0
+
+/-- the height handed to `SetLastObservedBlockHeight`: the current voter's claim (regenerated); anything else is not modelled -/
+def hObsOf (h : Nat) : Nat := if FxVerif.Gen.C06.observedHeightFromVoter then h else 0
+
+/-- the vote is stored: attestation, last event nonce of the oracle (and the ghost log) -/
+def recorded (s : VState) (att : Att) (o n h : Nat) (ev : Ev) : VState :=
+  { s with atts := setAtt s.atts att, last := s.last.set o n, voteLog := s.voteLog ++ [⟨o, n, h, ev⟩] }
+
+/-- the quorum is complete: the `observe` step of the base model with the stored height; a panic reverts the whole claim
+transaction (and the base step leaves the state as it is) -/
+def observeBy (s : VState) (att : Att) (o n h : Nat) (ev : Ev) : VState × Res × Option Op :=
+  let br := step s.base (.observe (hObsOf h) ev)
+  if br.2 = .panic then ({ s with base := br.1 }, .panic, some (.observe (hObsOf h) ev))
+  else ({ recorded s { att with observed := true } o n h ev with
+            base := br.1, obsLog := s.obsLog ++ [⟨n, hObsOf h, ev, att.votes⟩] }, br.2, some (.observe (hObsOf h) ev))
+
 /-- `MsgServer.Claim → Attest` with the claim-hash coverage table `tbl`; the third component is the step of the base model
 the vote performs, if it completes a quorum -/
 def voteCore (tbl : Fields) (s : VState) (o n h : Nat) (ev : Ev) : VState × Res × Option Op :=
   if o ≥ s.powers.length then (s, .err, none)                       -- not a registered oracle's bridger
   else if n ≠ s.last.getD o 0 + 1 then (s, .err, none)               -- ErrNonContiguousEventNonce
   else
-    let key := claimKey tbl h ev
-    let att0 : Att := match s.atts.find? (fun a => a.nonce = n ∧ a.key = key) with
-      | some a => a
-      | none => ⟨n, key, [], false⟩
-    let att : Att := { att0 with votes := att0.votes ++ [o] }
-    let s1 : VState := { s with atts := setAtt s.atts att, last := s.last.set o n, voteLog := s.voteLog ++ [⟨o, n, h, ev⟩] }
-    if !att.observed && n == s.base.eventNonce + 1 && reached (power s) (required s.total) att.votes 0 then
-      -- the height handed to SetLastObservedBlockHeight: the current voter's claim (regenerated); anything else is not modelled
-      let hObs := if FxVerif.Gen.C06.observedHeightFromVoter then h else 0
-      match step s.base (.observe hObs ev) with
-      | (_, .panic) => (s, .panic, some (.observe hObs ev))         -- the claim transaction reverts as a whole (the base step leaves the state as it is)
-      | (b, r) => ({ s1 with base := b, atts := setAtt s.atts { att with observed := true },
-                             obsLog := s.obsLog ++ [⟨n, hObs, ev, att.votes⟩] }, r, some (.observe hObs ev))
-    else (s1, .ok n, none)
+    let att := addVote (findAtt tbl s n h ev) o
+    if crosses s att n then observeBy s att o n h ev
+    else (recorded s att o n h ev, .ok n, none)
 
 def voteWith (tbl : Fields) (s : VState) (o n h : Nat) (ev : Ev) : VState × Res :=
   let r := voteCore tbl s o n h ev; (r.1, r.2.1)
@@ -165,5 +181,10 @@ def allVote (s : VState) (h : Nat) (ev : Ev) : List VOp :=
 
 def vinit (b : State) (powers : List Nat) (total : Nat) : VState :=
   { base := b, powers := powers, total := total, last := powers.map (fun _ => 0) }
+
+/-- a coverage table in which the bridge-token claim's hash does NOT cover the reported height (used by the `example`
+that shows `Props.C06.observed_height_has_quorum` depends on the coverage) -/
+def tableWithoutHeight : Fields :=
+  [("MsgBridgeTokenClaim", ["EventNonce", "TokenContract", "Name", "Symbol", "Decimals", "ChannelIbc"])]
 
 end FxVerif.Model.C06Vote
